@@ -111,6 +111,35 @@ def impl_list(b):
         D.OSType = real
 
 
+def _limit_as():
+    import resource
+
+    lim = 4096 * 1024 * 1024
+    resource.setrlimit(resource.RLIMIT_AS, (lim, lim))
+
+
+def _impl_list_guarded(b):
+    """impl_list under an address-space limit: an allocation sized by the declared count shows as MEMORY"""
+    import resource
+
+    r0 = resource.getrusage(resource.RUSAGE_SELF).ru_maxrss
+    try:
+        o = impl_list(b)
+    except MemoryError:
+        return [-2, 0]
+    grown = (resource.getrusage(resource.RUSAGE_SELF).ru_maxrss - r0) // 1024
+    if grown > 64:  # MB, for an input of a few dozen bytes
+        return [-2, grown]
+    return o
+
+
+def impl_list_all(cases):
+    import multiprocessing
+
+    with multiprocessing.get_context("fork").Pool(1, initializer=_limit_as) as pool:
+        return pool.map(_impl_list_guarded, cases, chunksize=50)
+
+
 def gen_lists(ck):
     item = lambda v: b"long" + struct.pack(">i", v)
     counts = [0, 1, 2, 3, 5, 2 ** 31 - 1, 2 ** 31, 2 ** 32 - 1]
@@ -152,7 +181,12 @@ def seeds(ck):
     fx = sorted(glob.glob(os.path.join(FIXDIR, "*.ps[db]")) + glob.glob(os.path.join(FIXDIR, "*", "*.ps[db]")), key=os.path.getsize)
     lim = 40 if ck.tier == "thorough" else 8
     step = max(1, len([f for f in fx if os.path.getsize(f) < 60000]) // lim)
-    for f in [f for f in fx if os.path.getsize(f) < 60000][::step][:lim]:
+    chosen = [f for f in fx if os.path.getsize(f) < 60000][::step][:lim]
+    with_lists = [f for f in fx if os.path.getsize(f) < 120000 and b"VlLs" in open(f, "rb").read()]
+    for f in with_lists[: (6 if ck.tier == "thorough" else 2)]:
+        if f not in chosen:
+            chosen.append(f)
+    for f in chosen:
         out.append((os.path.relpath(f, FIXDIR), open(f, "rb").read()))
     return out
 
@@ -222,6 +256,20 @@ def gen_mutants(ck, name, b):
             m = bytearray(b)
             m[o:o + 4] = b"\0\0\0\0"
             yield ("zero4@%d" % o, bytes(m))
+    # structure-level: element counts that follow a descriptor type code (not aligned, not a length field)
+    for code in (b"VlLs", b"ObAr", b"obj "):
+        start = 0
+        hits = 0
+        while hits < (40 if thorough else 6):
+            i = b.find(code, start)
+            if i < 0 or i + 8 > n:
+                break
+            hits += 1
+            start = i + 4
+            for v in (b"\x00\x10\x00\x00", b"\x01\x00\x00\x00", b"\x10\x00\x00\x00", b"\x7f\xff\xff\xff", b"\xff\xff\xff\xff"):
+                m = bytearray(b)
+                m[i + 4:i + 8] = v
+                yield ("count@%d" % (i + 4), bytes(m))
     # random multi-byte substitutions and splices
     for _ in range(300 if thorough else 60):
         m = bytearray(b)
@@ -326,8 +374,11 @@ def run():
     # (b) list loop
     ls = list(dict.fromkeys(gen_lists(ck)))
     lcases = []
-    for b in ls:
-        o = impl_list(b)
+    for b, o in zip(ls, impl_list_all(ls)):
+        if o[0] == -2:
+            ck.fail("loop-allocates-by-declared-count", {"list_bytes": list(b)}, "MemoryError or peak RSS grew by %d MB" % o[1],
+                    "memory bounded by the size of the data")
+            o = [99]
         lcases.append((list(b), o))
         ck.count("list:" + ("ok" if o[0] == 0 else "err%d" % o[0]))
         ticks = o[2] if o[0] == 0 else o[1]
